@@ -126,24 +126,25 @@ type task struct {
 }
 
 type sched struct {
-	cfg     Config
-	rng     *Rng
-	tasks   []*task
-	cur     *task
-	step    int64
-	sw      int64
-	hash    uint64
-	log     [1024]Switch
-	nlog    int
-	main    chan struct{}
-	join    sync.WaitGroup
-	dead    string
-	noprog  string
-	gcs     int64
-	nextGC  int64
-	pct     []int64 // change points
-	blkAcq  int64
-	lastSyn bool // the previous point was a visible sync event
+	cfg         Config
+	rng         *Rng
+	tasks       []*task
+	cur         *task
+	step        int64
+	sw          int64
+	hash        uint64
+	log         [1024]Switch
+	nlog        int
+	main        chan struct{}
+	join        sync.WaitGroup
+	dead        string
+	noprog      string
+	gcs         int64
+	nextGC      int64
+	pct         []int64 // change points
+	blkAcq      int64
+	lastSyn     bool // the previous point was a visible sync event
+	frenzyUntil int64
 }
 
 var (
@@ -169,11 +170,12 @@ const (
 	ProbePoolFresh            // pool handed out a fresh object though recycled ones existed
 	ProbeMidOpGC              // forced GC in the middle of an operation
 	ProbeOnceContend          // sync.Once entered by two tasks
+	ProbePoolSharedOut        // a pool handed out an object that another user still had checked out
 	NumProbes
 )
 
 var ProbeNames = [NumProbes]string{"lock_wait", "switch_while_lock_held", "pool_two_out", "switch_after_atomic_store",
-	"atomic_load_nil", "pool_recycled_handout", "pool_fresh_despite_recycled", "mid_operation_gc", "once_contended"}
+	"atomic_load_nil", "pool_recycled_handout", "pool_fresh_despite_recycled", "mid_operation_gc", "once_contended", "pool_object_handed_out_twice"}
 
 var locksHeld int64
 
@@ -261,6 +263,16 @@ func AfterStore() {
 
 var afterStore bool
 
+// PoolSharedOut: steering only. For the next stretch of the run every scheduling point is a coin flip.
+//
+//go:norace
+func PoolSharedOut() {
+	probe[ProbePoolSharedOut]++
+	if active {
+		cur.frenzyUntil = cur.step + 20000
+	}
+}
+
 // maxMidOpGCs bounds the forced collections of one run (a collection costs milliseconds; with statement-granularity
 // yields a run passes millions of points).
 const maxMidOpGCs = 300
@@ -321,6 +333,14 @@ func (s *sched) pick(t *task, sync bool) *task {
 		}
 		return t
 	}
+	if s.step < s.frenzyUntil && s.cfg.Strategy != StratNonPreemptive && s.cfg.Strategy != "" {
+		// 1/12: often enough to stop a task between two statements of a short critical sequence, rarely enough for
+		// the other task to get through a whole such sequence before it is stopped itself
+		if s.rng.Intn(12) != 0 {
+			return t
+		}
+		return s.otherRunnable(t)
+	}
 	switch s.cfg.Strategy {
 	case StratNonPreemptive, "":
 		return t
@@ -353,7 +373,13 @@ func (s *sched) pick(t *task, sync bool) *task {
 			return t
 		}
 	}
-	// choose uniformly among the other runnable tasks
+	return s.otherRunnable(t)
+}
+
+// otherRunnable chooses uniformly among the other runnable tasks (t itself if there is none).
+//
+//go:norace
+func (s *sched) otherRunnable(t *task) *task {
 	n := 0
 	for _, o := range s.tasks {
 		if o != t && s.runnable(o) {
